@@ -35,7 +35,8 @@ RULE = ("signatures: 0..4 parameters (plain names, `caller` at every position, `
         "least one keyword, surplus positional or special variable involved.")
 
 NAMES = {0: "caller", 1: "kwargs", 2: "varargs", 3: "a", 4: "b", 5: "c", 6: "d", 7: "class", 8: "for", 9: "self",
-         10: "o1", 11: "o2", 12: "o3", 20: "z", 21: "y", 22: "if"}
+         10: "o1", 11: "o2", 12: "o3", 20: "z", 21: "y", 22: "if", 23: "obj", 24: "context", 25: "environment", 26: "args",
+         27: "name", 28: "func"}
 IDS = {v: k for k, v in NAMES.items()}
 O1_DEF, O1_CALL, O2_CTX = 90, 91, 92
 
@@ -50,16 +51,22 @@ def def_fields(d):
             "U" + "".join(str(b) for b in d["uses"])]
 
 
-def outer_field(d):
-    o = [f"10=i{O1_CALL}"]
-    if d["o2"]:
+# the opaque data values of the model (i<k>) as Python values of several kinds, falsy ones included
+VALMAP = {2: "s", 3: 2.5, 4: True, 5: [1, 2], 12: "kw", 13: False, 14: 0, 15: ""}
+O1_SECOND = 93
+
+
+def outer_field(d, c=None):
+    path = c["path"] if c else "py"
+    o = [f"10=i{O1_SECOND if path == 'seq2' else O1_CALL}"]
+    if d["o2"] and path not in ("imp", "from"):      # an imported template does not see the render context
         o.append(f"11=i{O2_CTX}")
     return enc_list("O", o)
 
 
 def line_I(case):
     d, c = case["def"], case["call"]
-    return " ".join(["I"] + def_fields(d) + [outer_field(d), enc_list("A", c["args"]),
+    return " ".join(["I"] + def_fields(d) + [outer_field(d, c), enc_list("A", c["args"]),
                                              enc_list("K", [f"{k}={v}" for k, v in c["kw"]])])
 
 
@@ -68,7 +75,10 @@ def lit(v):
     if v == "N":
         return "none"
     if v[0] == "i":
-        return v[1:]
+        x = VALMAP.get(int(v[1:]), int(v[1:]))
+        if x is True or x is False:
+            return "true" if x else "false"
+        return repr(x)
     raise ValueError(v)
 
 
@@ -80,7 +90,7 @@ def printed(d, p):
     return True
 
 
-def def_source(d):
+def def_source(d, as_call_block=None):
     n, nd = len(d["params"]), len(d["defaults"])
     ps = []
     for i, p in enumerate(d["params"]):
@@ -97,6 +107,10 @@ def def_source(d):
                  2: "{% with varargs = 1 %}{% endwith %}"}
         pre = "".join(forms[i] for i in (0, 1, 2) if d["uses"][i] and i not in d["params"])
     body = pre + ",".join(f"{p}={{{{ {NAMES[p]}|show }}}}" if printed(d, p) else f"{p}=_" for p in d["params"])
+    # after printing, the body changes list-valued parameters in place: what one call does to its arguments or
+    # defaults must not be visible to the next call
+    mut = "".join("{%% if %s is defined and %s is not none and %s.append is defined %%}{%% set u_ = %s.append(987) %%}{%% endif %%}" % ((NAMES[p],) * 4)
+                  for p in d["params"] if printed(d, p) and p not in (0, 1, 2))
     for idx, nm in enumerate(("caller", "kwargs", "varargs")):
         body += "|"
         if d["uses"][idx] and idx not in d["params"]:
@@ -104,13 +118,20 @@ def def_source(d):
             body += ("{%% call fw(%s) %%}{%% endcall %%}" % nm) if d.get("fwd") else ("{{ %s|show }}" % nm)
         else:
             body += "-"
-    return ("{% macro fw(v) %}{{ v|show }}{{ caller() }}{% endmacro %}" if d.get("fwd") else "") + \
+    body += mut
+    fw = "{% macro fw(v) %}{{ v|show }}{{ caller() }}{% endmacro %}" if d.get("fwd") else ""
+    if as_call_block is not None:
+        # "a call block works exactly like a macro without a name": the same signature and body as a call block,
+        # invoked through caller(<the call's arguments>) from inside a wrapper macro
+        return (fw + "{% set o1 = " + str(O1_DEF) + " %}{% macro m() %}{{ caller(" + as_call_block + ") }}{% endmacro %}"
+                "{% set o1 = " + str(O1_CALL) + " %}{% call(" + ", ".join(ps) + ") m() %}" + body + "{% endcall %}")
+    return fw + \
         ("{% set o1 = " + str(O1_DEF) + " %}{% macro m(" + ", ".join(ps) + ") %}" + body +
             "{% endmacro %}{% set o1 = " + str(O1_CALL) + " %}")
 
 
-def call_source(c):
-    """template text of the call (paths tpl / star / block)"""
+def call_source(c, fn="m"):
+    """template text of the call (paths tpl / star / block / import forms)"""
     args = [lit(v) for v in c["args"]]
     kws = [(NAMES[k], lit(v)) for k, v in c["kw"] if not (k == 0 and v == "M" and c["path"] == "block")]
     if c["path"] == "star":
@@ -125,9 +146,11 @@ def call_source(c):
         inner = ", ".join(parts)
     else:
         inner = ", ".join(args + [f"{n}={v}" for n, v in kws])
+    if fn is None:
+        return inner
     if c["path"] == "block":
-        return "{% call m(" + inner + ") %}x{% endcall %}"
-    return "{{ m(" + inner + ") }}"
+        return "{% call " + fn + "(" + inner + ") %}x{% endcall %}"
+    return "{{ " + fn + "(" + inner + ") }}"
 
 
 # ------------------------------------------------------------------ canonical form of real values
@@ -142,6 +165,9 @@ class Canon:
             return "?"
         if v is None:
             return "N"
+        for k, x in VALMAP.items():
+            if type(v) is type(x) and v == x:
+                return f"i{k}"
         if isinstance(v, bool):
             return "?bool"
         if isinstance(v, int):
@@ -201,10 +227,18 @@ class Real:
         self.jinja2 = jinja2
         self.canon = Canon(jinja2)
         self.envs = {}
+        self.sources = {}
+        from jinja2.sandbox import SandboxedEnvironment
         for mode in ("sync", "async"):
-            env = jinja2.Environment(enable_async=(mode == "async"))
-            env.filters["show"] = self.canon.val
-            self.envs[mode] = env
+            for axis in ("plain", "sandboxed", "autoescape", "unoptimized"):
+                kw = {"enable_async": mode == "async", "loader": jinja2.FunctionLoader(self.sources.get)}
+                env = (SandboxedEnvironment(**kw) if axis == "sandboxed" else
+                       jinja2.Environment(autoescape=True, **kw) if axis == "autoescape" else
+                       jinja2.Environment(optimized=False, **kw) if axis == "unoptimized" else jinja2.Environment(**kw))
+                env.filters["show"] = self.canon.val
+                self.envs[(mode, axis)] = env
+            self.envs[mode] = self.envs[(mode, "plain")]
+        self.adefs = {}
         self.cb = self.envs["sync"].from_string("{% macro cb() %}x{% endmacro %}").module.cb
         self.defs = {}
 
@@ -213,7 +247,8 @@ class Real:
             return None
         if v == "M":
             return self.cb
-        return int(v[1:])
+        x = VALMAP.get(int(v[1:]), int(v[1:]))
+        return list(x) if isinstance(x, list) else x
 
     def compiled_def(self, d, key):
         """(error | (template, Macro object from the module, python parameter names))"""
@@ -238,18 +273,34 @@ class Real:
         self.defs[key] = r
         return r
 
-    def call_python(self, d, mac, c):
+    def async_module_macro(self, d, key):
+        if key not in self.adefs:
+            try:
+                t = self.envs["async"].from_string(def_source(d))
+                self.adefs[key] = asyncio.run(t.make_module_async({"o2": O2_CTX} if d["o2"] else {})).m
+            except Exception as e:  # noqa
+                self.adefs[key] = None
+        return self.adefs[key]
+
+    def call_python(self, d, mac, c, is_async=False):
         """returns (arguments string | error string, frame string | None)"""
         captured = []
         orig = mac._func
 
-        def rec(*arguments):
-            captured.append(arguments)
-            return orig(*arguments)
+        if is_async:
+            async def rec(*arguments):
+                captured.append(arguments)
+                return await orig(*arguments)
+        else:
+            def rec(*arguments):
+                captured.append(arguments)
+                return orig(*arguments)
 
         mac._func = rec
         try:
             out = mac(*[self.pyval(v) for v in c["args"]], **{NAMES[k]: self.pyval(v) for k, v in c["kw"]})
+            if is_async:
+                out = asyncio.run(out)
             return "ok(" + ",".join(self.canon.val(x) for x in captured[0]) + ")", str(out)
         except TypeError as e:
             k = classify_type_error(e, d)
@@ -262,14 +313,28 @@ class Real:
             mac._func = orig
 
     def call_template(self, d, c):
-        src = def_source(d) + call_source(c)
+        path = c["path"]
+        if path in ("imp", "impctx", "from"):
+            name = "defs%d" % len(self.sources)
+            self.sources[name] = def_source(d)
+            if path == "from":
+                src = "{% from '" + name + "' import m %}" + call_source(dict(c, path="tpl"))
+            else:
+                src = "{% import '" + name + "' as lib" + (" with context" if path == "impctx" else "") + " %}" + \
+                    call_source(dict(c, path="tpl"), "lib.m")
+        elif path == "cb":
+            src = def_source(d, as_call_block=call_source(dict(c, path="tpl"), None))
+        elif path == "seq2":
+            # two calls in ONE render with the outer variable re-set in between: defaults are per call
+            src = def_source(d) + "{{ m() }}{% set o1 = " + str(O1_SECOND) + " %}~~" + call_source(dict(c, path="tpl"))
+        else:
+            src = def_source(d) + call_source(c)
         ctxvars = {"o2": O2_CTX} if d["o2"] else {}
         try:
-            env = self.envs[c.get("mode", "sync")]
+            env = self.envs[(c.get("mode", "sync"), c.get("axis", "plain"))]
             t = env.from_string(src)
-            if c.get("mode") == "async":
-                return asyncio.run(t.render_async(**ctxvars))
-            return t.render(**ctxvars)
+            out = asyncio.run(t.render_async(**ctxvars)) if c.get("mode") == "async" else t.render(**ctxvars)
+            return str(out).split("~~", 1)[1] if path == "seq2" else str(out)
         except TypeError as e:
             return classify_type_error(e, d)
         except Exception as e:  # noqa
@@ -278,7 +343,7 @@ class Real:
 
 # ------------------------------------------------------------------ generators
 def default_options(params, i):
-    opts = ["ci7", "cN", "r10", "r11", "r12"]
+    opts = ["ci7", "cN", "ci5", "ci2", "r10", "r11", "r12"]
     opts += [f"r{p}" for p in params[:i]][:1]
     opts += [f"r{p}" for p in params[i + 1:]][:1]
     opts += [f"r{params[i]}"]                     # the parameter's own name: m(a=a)
@@ -295,6 +360,8 @@ def signatures(ctx, max_n):
             variants.append([2] + base[1:])
             variants.append(base[:-1] + [7])          # a parameter named like a Python keyword
             variants.append([9] + base[1:])           # a parameter named `self` (also given by keyword)
+            variants.append([23] + base[1:])          # parameters named like arguments of the engine's own call helpers
+            variants.append(base[:-1] + [24])
         if n >= 2:
             variants.append([8] + base[1:-1] + [7])
         for params in variants:
@@ -322,7 +389,8 @@ def exhaustive_calls(d, max_pos, max_kw, cyc):
 
 
 def random_call(ctx, d, path):
-    cand = sorted(set(d["params"]) | {20, 21, 22, 0} | ({9} if ctx.rng.random() < 0.15 else set()))
+    cand = sorted(set(d["params"]) | {20, 21, 22, 0} | ({9} if ctx.rng.random() < 0.15 else set())
+                  | ({ctx.rng.choice([23, 24, 25, 26, 27, 28])} if ctx.rng.random() < 0.4 else set()))
     npos = ctx.rng.randint(0, 5)
     k = ctx.rng.randint(0, min(4, len(cand)))
     names = ctx.rng.sample(cand, k)
@@ -354,7 +422,7 @@ def judge(ctx, real, case, mline, finals_queue):
     nontriv = None
     if len(c["args"]) < len(d["params"]) and (c["kw"] or any(d["uses"])):
         nontriv = (key, tuple(c["args"]), tuple(map(tuple, c["kw"])), c["path"], c.get("mode"))
-    ctx.case(sample={"template": def_source(d) + (call_source(c) if c["path"] != "py" else " # module.m(...)"),
+    ctx.case(sample={"template": def_source(d) + (call_source(dict(c, path="tpl") if c["path"] not in ("tpl", "star", "block") else c) if c["path"] not in ("py", "apy") else " # module.m(...)"),
                      "call": c, "model": mline} if nontriv and len(c["kw"]) > 1 else None, key=nontriv)
     ctx.count("path_" + c["path"] + ("_async" if c.get("mode") == "async" else ""))
     # ---- compile step (K-gen macro_body / macro_def)
@@ -388,6 +456,12 @@ def judge(ctx, real, case, mline, finals_queue):
     # ---- the call
     if c["path"] == "py":
         rargs, rframe = real.call_python(d, rd[1], c)
+    elif c["path"] == "apy":
+        amac = real.async_module_macro(d, key)
+        if amac is None:
+            ctx.reject(case, "make_module_async failed although make_module works", "macro-binding: async module")
+            return
+        rargs, rframe = real.call_python(d, amac, c, True)
     else:
         rframe = real.call_template(d, c)
         rargs = None
@@ -454,11 +528,12 @@ def check_finals(ctx, finals_queue):
         lf = ps.split(",") if ps else []
         if any(x.endswith("=_") for x in lf):
             continue
-        if any(x.split("=", 1)[1][:1] == "?" or x.split("=", 1)[1][:2] == "U?" for x in lf):
+        import re as _re
+        if any(not _re.fullmatch(r"N|M|Uc|i\d+|Up\d+|Un\d+", x.split("=", 1)[1]) for x in lf + [f"0={v}" for v in l0 if v != "?"]):
             ctx.reject(case, f"macro body saw a non-canonical value {lf}", "macro-binding: non-canonical value")
             continue
         l0f = [f"{p}={v}" for p, v in zip(d["params"], l0)]
-        lines.append(" ".join(["F"] + def_fields(d) + [outer_field(d), enc_list("L", l0f), enc_list("R", lf)]))
+        lines.append(" ".join(["F"] + def_fields(d) + [outer_field(d, case["call"]), enc_list("L", l0f), enc_list("R", lf)]))
         cases.append(case)
     if not lines:
         return
@@ -525,32 +600,49 @@ def run(ctx):
         "default expressions in the tie are constants and names; other expressions are C02's subject",
     ]
     ctx.proof("C06")
-    # T5: Macro.__call__'s current source, translated into the deep embedding Lib/PyMacro.v, is proved
-    # equal to the model function macro_entry for every signature / argument tuple / keyword dict
+    # T5: the current source of Macro.__call__ and of the parameter-assembly part of CodeGenerator.macro_body,
+    # translated into the deep embeddings Lib/PyMacro.v / Lib/PyMacroBody.v, is proved equal to the model functions
+    # (macro_entry, macro_body_sig) for all inputs.  The two regenerated files are compiled concurrently with the
+    # correspondence runs below (same coqc command as ctx.coq_obligation; accounted for after they finish).
     import os
     import sys
+    import threading
     sys.path.insert(0, os.path.join(lib.ROOT, "gen"))
     import macro_translate
-    try:
-        vtext = macro_translate.emit(lib.SRC)
-        ok, out = ctx.coq_obligation("Gen_macro", vtext, n_obligations=7)
-        if ok:
-            ctx.trusted.append("Gen_macro (Macro.__call__ source = model, loop by induction): " + " ".join(out.split()))
-    except macro_translate.Untranslatable as e:
-        ctx.broken.append(f"translator gen/macro_translate.py: Macro.__call__ left the translatable vocabulary: {e}")
-    # T5 (compiler side): the parameter-assembly part of CodeGenerator.macro_body = macro_body_sig
     import macrobody_translate
-    try:
-        vtext = macrobody_translate.emit(lib.SRC)
-        ok, out = ctx.coq_obligation("Gen_macrobody", vtext, n_obligations=4)
-        if ok:
-            ctx.trusted.append("Gen_macrobody (macro_body parameter assembly source = macro_body_sig, loop by induction): " + " ".join(out.split()))
-    except macrobody_translate.Untranslatable as e:
-        ctx.broken.append(f"translator gen/macrobody_translate.py: macro_body left the translatable vocabulary: {e}")
+    pending = []
+    for name, mod, n_ob, what in (("Gen_macro", macro_translate, 7, "Macro.__call__ source = model, loop by induction"),
+                                  ("Gen_macrobody", macrobody_translate, 4, "macro_body parameter assembly source = macro_body_sig, loop by induction")):
+        try:
+            vtext = mod.emit(lib.SRC)
+        except mod.Untranslatable as e:
+            ctx.broken.append(f"translator gen/{mod.__name__}.py: the source left the translatable vocabulary: {e}")
+            continue
+        vfile = os.path.join(ctx.bdir, name + ".v")
+        with open(vfile, "w") as f:
+            f.write(vtext)
+        box = {}
+        th = threading.Thread(target=lambda b=box, v=vfile, nm=name: b.update(r=ctx._coqc(v, os.path.join(ctx.bdir, nm + ".vo"), 600)))
+        th.start()
+        pending.append((name, n_ob, what, th, box))
+
+    def finish_obligations():
+        for name, n_ob, what, th, box in pending:
+            th.join()
+            rc, out, err = box.get("r", (1, "", "coqc did not run"))
+            ctx.obligations += n_ob
+            ctx.obligation_names.append(f"{name} (regenerated, {n_ob})")
+            if rc != 0:
+                ctx.broken.append(f"regenerated obligation {name} fails: " + (err.strip().splitlines() or ["?"])[-1][:300])
+                ctx.extra.setdefault("coq_errors", []).append(err[-2000:])
+            else:
+                ctx.discharged += n_ob
+                ctx.trusted.append(f"{name} ({what}): " + " ".join(out.split()))
+
     real = Real(jinja2)
     sigs = signatures(ctx, 4)
     ex_n, ex_pos, ex_kw = ctx.size((2, 3, 2), (4, 5, 4))
-    n_rand_py, n_tpl = ctx.size((10, 3), (60, 12))
+    n_rand_py, n_tpl = ctx.size((6, 3), (60, 12))
     cases = []
     cyc = caller_values()
     for d in sigs:
@@ -562,6 +654,16 @@ def run(ctx):
         for j in range(n_tpl):
             c = random_call(ctx, d, ("tpl", "star", "block")[j % 3])
             c["mode"] = "async" if ctx.rng.random() < 0.25 else "sync"
+            c["axis"] = ctx.rng.choice(["plain", "plain", "sandboxed", "autoescape", "unoptimized"])
+            cases.append({"def": d, "call": c})
+        # alternative entry points: the async module, import / from-import (with and without context), and a second
+        # call in the same render after the outer variable changed
+        extra = ctx.rng.choice(["apy", "imp", "impctx", "from", "seq2", "cb", "cb"]) if ctx.tier != "thorough" else None
+        for path in ([extra] if extra else ["apy", "imp", "impctx", "from", "seq2", "cb"]):
+            c = random_call(ctx, d, "py" if path == "apy" else "tpl")
+            c["path"] = path
+            if path != "apy":
+                c["mode"] = "async" if ctx.rng.random() < 0.25 else "sync"
             cases.append({"def": d, "call": c})
     # the input class of the repaired defect, always present
     cases.append({"def": {"params": [0, 3], "defaults": ["cN", "ci1"], "uses": [1, 0, 0], "o2": False},
@@ -571,6 +673,7 @@ def run(ctx):
     for case, mline in zip(cases, out):
         judge(ctx, real, case, mline, finals_queue)
     check_finals(ctx, finals_queue)
+    finish_obligations()
     ctx.extra["hypothesis_probes"] = probes(ctx, real)
     ctx.extra["signatures"] = len(sigs)
 
